@@ -24,14 +24,21 @@ def _sp(kind):
     return E.hydrogen if kind == "element" else E.deuterium
 
 
-def _tab2(base, n, m):
-    import numpy as np
-    return np.array([[base * (1 + 0.3 * i + 0.07 * j) for j in range(m)] for i in range(n)])
+_DROP = ["none"]        # Provider.tla: drop - the axis along which the stored table falls by 1e-4 after its first node
 
 
-def _tab3(base, n, m, k):
+def _f(axis, i):
+    return 1e-4 if (_DROP[0] == axis and i >= 1) else 1.0
+
+
+def _tab2(base, n, m, names=("ne", "te")):
     import numpy as np
-    return np.array([[[base * (1 + 0.3 * i + 0.07 * j + 0.011 * l) for l in range(k)] for j in range(m)] for i in range(n)])
+    return np.array([[base * (1 + 0.3 * i + 0.07 * j) * _f(names[0], i) * _f(names[1], j) for j in range(m)] for i in range(n)])
+
+
+def _tab3(base, n, m, k, names=("ne", "te", "td")):
+    import numpy as np
+    return np.array([[[base * (1 + 0.3 * i + 0.07 * j + 0.011 * l) * _f(names[0], i) * _f(names[1], j) * _f(names[2], l) for l in range(k)] for j in range(m)] for i in range(n)])
 
 
 AX = {"ne": [1e18, 1e19, 1e20], "te": [1.0, 10.0, 100.0], "td": [2.0, 20.0, 200.0],
@@ -49,23 +56,24 @@ def axes_for(acc, shape):
 
 def beam_table(base, ax):
     import numpy as np
-    sen = _tab2(base, len(ax["e"]), len(ax["n"]))
-    st = np.array([0.8, 1.0, 1.3]) * 2e-3
+    sen = _tab2(base, len(ax["e"]), len(ax["n"]), ("e", "n"))
+    st = np.array([0.8 * _f("t", 0), 1.0 * _f("t", 1), 1.3 * _f("t", 2)]) * 2e-3
     return {"e": ax["e"], "n": ax["n"], "t": ax["t"], "sen": sen, "st": st, "eref": 1e4, "nref": 1e19, "tref": 100.0, "sref": float(st[1])}
 
 
 def cx_table(base, ax, meta):
     import numpy as np
-    q = lambda n, s: np.array([base * (1 + 3 * s) * (1 + s * i) for i in range(n)])      # noqa: E731  (pairwise distinct factors, also at index 0)
+    q = lambda n, s, name: np.array([base * (1 + 3 * s) * (1 + s * i) * _f(name, i) for i in range(n)])      # noqa: E731  (pairwise distinct factors, also at index 0)
     return {"eb": ax["eb"], "ti": ax["ti"], "ni": ax["ni"], "z": ax["z"], "b": ax["b"], "qref": base * (1.1 + 0.05 * meta),
-            "qeb": q(len(ax["eb"]), 0.4) * meta, "qti": q(len(ax["ti"]), 0.1), "qni": q(len(ax["ni"]), 0.2),
-            "qz": q(len(ax["z"]), 0.15), "qb": q(len(ax["b"]), 0.05)}
+            "qeb": q(len(ax["eb"]), 0.4, "eb") * meta, "qti": q(len(ax["ti"]), 0.1, "ti"), "qni": q(len(ax["ni"]), 0.2, "ni"),
+            "qz": q(len(ax["z"]), 0.15, "z"), "qb": q(len(ax["b"]), 0.05, "b")}
 
 
 def populate(root, c):
     """Repository content for one case.  Rates under the element key (if present), a decoy with other numbers under the isotope key."""
     from cherab.openadas import repository as R
     acc = c["acc"]
+    _DROP[0] = c.get("drop", "none")
     ax = axes_for(acc, c["shape"])
     el, iso = _sp("element"), _sp("isotope")
     store = {}     # what the element key holds (for the expected value)
@@ -268,6 +276,7 @@ INVARIANT Total
 INVARIANT MissingPolicyUniform
 INVARIANT IsotopeUsesElementRates
 INVARIANT ExtrapOnlyOutside
+INVARIANT DropIrrelevant
 INVARIANT EmitCase
 """
 
@@ -291,7 +300,9 @@ def run(v):
         # seed-stable thinning of the flag combinations for argument classes that do not depend on them
         import random
         rng = random.Random(v.seed)
-        keep = [r for r in cases if r["case"]["arg"][0] in ("grid", "nonpos") or not r["case"]["present"] or rng.random() < 0.5]
+        keep = [r for r in cases if r["case"]["arg"][0] in ("grid", "nonpos") or not r["case"]["present"] or r["case"].get("drop", "none") != "none" or rng.random() < 0.5]
+        if sum(1 for r in keep if r["case"].get("drop", "none") != "none") < 60:
+            raise core.MachineryError("vacuity: sharp-drop tables missing")
         cases = keep
     axes = {}
     import re
